@@ -11,7 +11,7 @@
    the key usable when a member joins or the threshold is lowered. *)
 From Coq Require Import ZArith List Bool Permutation.
 From mathcomp Require Import all_ssreflect all_algebra.
-From SygmaV Require Import Model.C08 Proofs.C08 Proofs.C08_Lagrange Proofs.C08_Bridge.
+From SygmaV Require Import Model.C08 Proofs.C08 Proofs.C08_Lagrange Proofs.C08_Bridge Proofs.C08_Btc.
 Import GRing.Theory.
 Delimit Scope Z_scope with Z.
 Local Open Scope ring_scope.
@@ -257,6 +257,52 @@ Theorem C08_validate_start_params_ok : forall old_t sub key_peers store,
   (key_peers = nil \/ Permutation sub (List.filter (fun p => memZ p store) key_peers)).
 Proof. exact validate_start_params_ok. Qed.
 Print Assumptions C08_validate_start_params_ok.
+
+(* ---- the BTC executor between the signing results and the broadcast (watchExecution) ----------- *)
+
+(* Whatever results arrive on the signature channel - in any order, any input any number of times,
+   nil values in between, some inputs never -: a transaction is sent only when every input's slot
+   holds the signature made for THAT input (the results of correct signing processes: [Some id] is
+   valid exactly in slot id), i.e. what the BTC executor submits carries a valid signature on EVERY
+   input. *)
+Theorem C08_btc_sends_only_fully_signed : forall (n : nat) (rs : list (option nat)) (w : list (option nat)),
+  btc_watch_tx n rs = WSent w ->
+  List.length w = n /\ List.forallb (fun b => b) (slots_valid_from 0 w) = true.
+Proof. exact btc_watch_tx_sent_valid. Qed.
+Print Assumptions C08_btc_sends_only_fully_signed.
+
+(* ... it does send once every input has delivered (results of the transaction's own inputs) ... *)
+Theorem C08_btc_sends_when_every_input_signed : forall (n : nat) (rs : list (option nat)),
+  Peano.lt 0 n -> results_in_range n rs = true ->
+  (forall i, Peano.lt i n -> input_delivered i rs = true) -> exists w, btc_watch_tx n rs = WSent w.
+Proof. exact btc_watch_tx_live. Qed.
+Print Assumptions C08_btc_sends_when_every_input_signed.
+
+(* ... and never indexes outside the transaction's inputs *)
+Theorem C08_btc_watch_no_panic : forall rs slots, results_in_range (List.length slots) rs = true ->
+  btc_watch slots rs <> WPanic.
+Proof. exact btc_watch_no_panic. Qed.
+Print Assumptions C08_btc_watch_no_panic.
+
+(* the judge of what reached the node accepts the model and means "every input verifies" *)
+Theorem C08_btc_sent_ok_model : forall n rs,
+  btc_sent_ok n (fst (btc_model_obs n rs)) (snd (btc_model_obs n rs)) = true.
+Proof. exact btc_sent_ok_model. Qed.
+Print Assumptions C08_btc_sent_ok_model.
+
+Theorem C08_btc_sent_ok_sound : forall n sent valids, btc_sent_ok n sent valids = true -> sent <> 0%nat ->
+  List.length valids = n /\ forall i, Peano.lt i n -> List.nth i valids false = true.
+Proof. exact btc_sent_ok_sound. Qed.
+Print Assumptions C08_btc_sent_ok_sound.
+
+(* counting the results instead ("one result per input") sends a transaction with an unsigned input
+   as soon as one input delivers twice *)
+Theorem C08_btc_counting_results_refuted :
+  btc_watch_counting 2 (List.repeat None 2) (Some 0 :: Some 0 :: Some 1 :: nil)%nat = WSent (Some 0%nat :: None :: nil) /\
+  btc_sent_ok 2 1 (slots_valid_from 0 (Some 0%nat :: None :: nil)) = false /\
+  btc_watch_tx 2 (Some 0 :: Some 0 :: Some 1 :: nil)%nat = WSent (Some 0 :: Some 1 :: nil)%nat.
+Proof. exact counting_sends_unsigned_input. Qed.
+Print Assumptions C08_btc_counting_results_refuted.
 
 (* Non-vacuity: over Z mod 7 a degree-1 sharing of the secret 3 among the nodes 1,2,3: every pair
    and the triple reconstruct 3, the judge accepts; 7 is prime; the refresh/reshare hypotheses are
